@@ -16,6 +16,10 @@ OBLIGATIONS = [
     "Pkgcore.C34.output_is_window_concat",
     "Pkgcore.C34.filtered_windows_are_statements",
     "Pkgcore.C34.sentinel_never_emitted",
+    "Pkgcore.C34.written_bytes_are_encoded_text",
+    "Pkgcore.C34.byte_cut_at_char_offsets_counterexample",
+    "Pkgcore.C34.no_nul_byte_written",
+    "Pkgcore.C34.space_only_ascii",
     "Pkgcore.C34.statements_follow_matchers",
     "Pkgcore.C34.patterns_select_whole_name",
     "Pkgcore.C34.ungrouped_single_token_counterexample",
@@ -33,7 +37,8 @@ TRUSTED = [
     "str.isspace / str.isalnum are tables generated from CPython on every run",
     "bash (the installed 5.2) is the oracle for 'defines the same values and function bodies': the dump is produced by bash itself "
     "(${v@A}, ${v@Q}, printf %q, declare -p, declare -f) and both the unfiltered and the filtered text are sourced in a clean bash",
-    "utf-8 encoding of the written windows (out.write(...encode())) is not modelled; outputs are compared as text",
+    "Lean's String.utf8EncodeChar is Python's str.encode('utf-8') on text without surrogates: the bytes the real code writes are "
+    "compared with the model's (one encoded window after the other) on every case",
 ]
 ASSUMPTIONS = [
     "the buffer handed to run() ends with the NUL sentinel main_run appends and contains no other NUL (bash cannot store one)",
@@ -41,22 +46,26 @@ ASSUMPTIONS = [
     "watchdog so that a non-terminating scan would be reported as a violation)",
 ]
 RULE = ("environment dumps written by bash itself: 1-8 variables with random values (quotes, blanks, newlines, braces, $, backticks, "
-        "backslashes, #, ;, control and non-ASCII characters) each dumped in a random quoting style (${v@A}, name=${v@Q}, printf %q, "
+        "backslashes, #, ;, control characters; 30 % of the dumps rich in multi-byte text: 2/3/4-byte sequences, combining marks, printable non-ASCII "
+        "spaces U+00A0/U+2003/U+3000 that bash writes raw and does not split words at, invisible format characters, names and localized messages) each dumped in a random quoting style (${v@A}, name=${v@Q}, printf %q, "
         "declare -p, indexed arrays) and 0-5 functions whose bodies are random compositions of ~45 construct atoms (quoted braces, "
         "parameter expansions, here-documents incl. <<-, <<'' and quoted words, case arms, comments, arithmetic, subshells, command "
-        "substitution, nested functions, [[ =~ ]], process substitution) inside if/for/while/case/brace-group wrappers, printed by "
+        "substitution, nested functions, [[ =~ ]], process substitution, non-ASCII messages / comments / case patterns / here-document text / function names) inside if/for/while/case/brace-group wrappers, printed by "
         "declare -f, plus generated here-documents (<<, <<-, quoted and unquoted words, text lines that end in / contain / start with "
         "the delimiter word — also indented or followed by ; } ) —, unbalanced quotes, braces and parentheses in the text, trailing commands, inside $( )); the names are "
         "drawn from pools in which names share prefixes, suffixes and infixes (CFLAGS / CFLAGS_amd64 / XCFLAGS, T / TT, pkg_setup / "
         "pkg_setup_hook); black/white-lists of 0-5 tokens (plain names as the callers pass them, prefix.*, .*suffix, optional and "
         "wildcard characters, empty tokens, tokens that are alternations a|b — also as the only token) over dumped and not-dumped related names in random order; a selection stream (name lists "
-        "x token lists on one-line definitions, bounded-exhaustive over a small universe) and a mutated stream (single edits of a "
-        "dump) for robustness; "
+        "x token lists on one-line definitions with ASCII and multi-byte values, bounded-exhaustive over a small universe) and a mutated stream (single edits of a "
+        "dump) for robustness; outputs are compared as bytes (valid UTF-8, no NUL, pieces of the encoded dump in order, equal to the model's bytes); "
+        "where model and implementation disagree without a property failure on that input the property is evaluated with bash on nearby inputs (the same dump "
+        "under no / reversed / inverted / single-definition token lists; for a raw text: bash's own dump of what the text defines), failing dumps are shrunk; "
         "non-trivial = the dump has at least two definitions and at least one is selected for removal and at least one is kept")
 LEVEL_TEXT = ("Kernel-checked Lean 4 theorems about a function-by-function port of the scanner (fuel-indexed mutual recursion): every walker "
               "only moves forward and the scan terminates (the fuel never runs out); the output is the concatenation of disjoint, ordered windows of the input that never contain the appended "
               "NUL; the dropped text is exactly the union of the statements (function definitions / assignments) whose name was selected — "
-              "nothing outside a filtered statement is dropped and nothing is added; the pattern text build_regex_string builds from the "
+              "nothing outside a filtered statement is dropped and nothing is added; the bytes written are the UTF-8 encoding of exactly that text (cuts are "
+              "made in the text, never inside a character's byte sequence) and contain no NUL; only ASCII whitespace separates words; the pattern text build_regex_string builds from the "
               "token lists selects a name iff some token matches the whole name (whitelist: iff none does), so with plain names exactly "
               "the named definitions are selected whatever prefixes/suffixes they share with other names. The port is tied to the code by running real "
               "filter_env.main_run and the model on dumps produced by bash; the property itself is evaluated with bash as oracle "
@@ -96,9 +105,17 @@ def gen_tables(repo):
             cur += item
         lines.append(cur.rstrip().rstrip(","))
         return "\n".join(lines)
-    text = ("-- GENERATED from CPython (str.isspace / str.isalnum) by harness/props/c34.py (gen_tables); do not edit\n"
+    import importlib
+    import sys
+    src = os.path.join(repo, "src")
+    if src not in sys.path:
+        sys.path.insert(0, src)
+    fe = importlib.import_module("pkgcore.ebuild.filter_env")
+    # the scanner's own whitespace predicate (module attribute since the fix that made it ASCII-only; str.isspace before)
+    isspace = getattr(fe, "isspace", str.isspace)
+    text = ("-- GENERATED from pkgcore.ebuild.filter_env.isspace and CPython's str.isalnum by harness/props/c34.py (gen_tables); do not edit\n"
             "namespace Pkgcore.Generated.C34\n"
-            f"def spaceRanges : List (Nat × Nat) := [\n{fmt(ranges(str.isspace))}]\n"
+            f"def spaceRanges : List (Nat × Nat) := [\n{fmt(ranges(isspace))}]\n"
             f"def alnumRanges : List (Nat × Nat) := [\n{fmt(ranges(str.isalnum))}]\n"
             "end Pkgcore.Generated.C34\n")
     return {"Pkgcore/Generated/C34Tables.lean": text}
@@ -108,7 +125,12 @@ def gen_tables(repo):
 
 VALUE_ATOMS = ["a", "foo", " ", "  ", "\t", "\n", "'", '"', "}", "{", "$", "$x", "${y}", "$(z)", "`", "\\", "\\\\", "#", ";", "&", "|", "(", ")",
                "<", ">", "<<EOF", "=", "*", "?", "[", "]", "~", "!", "é", "ß→", "\x01", "\x7f", "\x1b[0m", "-", "--opt=1", "/usr/bin", "a b", "x'y\"z",
-               "}\n{", "$'", "\\'", "\r", "\x0b", " ", "%s", "function", "f() {"]
+               "}\n{", "$'", "\\'", "\r", "\x0b", "\u00a0", "%s", "function", "f() {"]
+
+# multi-byte text (2, 3 and 4 byte sequences, combining marks, printable non-ASCII spaces that bash writes raw and does not split
+# words at, invisible format characters): a saved environment carries descriptions, maintainer names and localized messages
+UNI_VALUE_ATOMS = ["ü", "größer", "→", "„x“", "日本語", "😀", "e\u0301", "\u00a0", "\u3000", "\u2003", "a\u00a0b", "x\u3000}", "\u2028", "\u0085", "\u200b",
+                   "\ufeff", "\u202e", "José Ñandú <j@example.org>", "naïve café — tools", "ä'ö\"ü", "é\n→", "\u00a0#", "ß;", "Ω=1", "é é"]
 
 BODY_ATOMS = {
     "simple": "echo hi",
@@ -163,6 +185,16 @@ BODY_ATOMS = {
     "backslash_nl": "echo a \\\n    b",
     "glob": "echo *.{a,b} [a-z]* ~/x ?x",
     "unicode": "echo 'é }' ß",
+    "unicode_msg": 'einfo "Bitte laden Sie die Datei „${A}“ händisch herunter — danke"',
+    "unicode_comment": "echo a # größer } →\n    echo b",
+    "unicode_heredoc": "cat <<EOF\nSchöne Grüße }\n→ $x 日本語\nEOF",
+    "unicode_case": "case $1 in ä|ö) echo ü;; é}) : ;; esac",
+    "unicode_nbsp_word": "echo a\u00a0b x\u3000y \u00a0}",
+    "unicode_nbsp_hash": "echo a\u00a0#b \"}\" 😀",
+    "unicode_assign": "local msg='größer' x=ä\u00a0ö; echo \"${msg} }\"",
+    "unicode_dollar": "echo $xé ${x}→ $'\\u00e9}' \"$(echo „})\"",
+    "unicode_pe": "echo ${x:-ä} ${x/é/→} ${x#„} ${#x}",
+    "unicode_array": "a=(ä '}→' \u3000); echo ${a[@]}",
     "eval": "eval 'f() { :; }'",
     "trap": "trap 'echo }' EXIT",
 }
@@ -187,7 +219,7 @@ WRAPPER_WEIGHTS = [1, 1, 2, 2, 3, 3, 6, 6, 7, 7, 4, 5]
 NOWRAP = {"semicolon_brace"}
 NAMES = ["A", "B", "FOO", "foo_bar", "_x", "PATH2", "x1", "CFLAGS", "LDFLAGS", "E_DEPEND", "T", "D", "PV", "var_with_long_name", "a", "Z9",
          "USE_x", "SANDBOX_ON", "PORTAGE_TMP"]
-FNAMES = ["f", "g2", "src_compile", "pkg_setup", "_helper", "econf2", "die2", "f-dash", "a.b", "x:y", "foo", "FOO", "src_test", "emake"]
+FNAMES = ["f", "g2", "src_compile", "pkg_setup", "_helper", "econf2", "die2", "f-dash", "a.b", "x:y", "foo", "FOO", "src_test", "emake", "größe", "f_ü"]
 # names bash (or the probe script) treats specially: never generated
 RESERVED = {"_", "IFS", "PATH", "HOME", "PWD", "OLDPWD", "UID", "EUID", "PPID", "GROUPS", "RANDOM", "SECONDS", "LINENO", "FUNCNAME", "DIRSTACK",
             "HISTCMD", "SHLVL", "OPTIND", "OPTARG", "OPTERR", "REPLY", "HOSTNAME", "HOSTTYPE", "OSTYPE", "MACHTYPE", "SHELL", "SHELLOPTS", "BASHOPTS",
@@ -277,7 +309,7 @@ def gen_tokens(rng, cands):
 # ---- here-documents
 HD_WORDS = ["EOF", "END", "E_O_F", "X1", "EOT"]
 HD_QWORDS = HD_WORDS + ["E O F", "a-b", "$X"]
-HD_PLAIN = ["plain text", "", "}", "{", "    indented }", "$x `y` $(z) ${w}", "%s x", "x%s", "%sx", '"%s"', "'%s'", "<<%s", "cat <<%s",
+HD_PLAIN = ["Schöne Grüße }", "→ %s 日本語", "%s\u00a0", "\u00a0%s", "plain text", "", "}", "{", "    indented }", "$x `y` $(z) ${w}", "%s x", "x%s", "%sx", '"%s"', "'%s'", "<<%s", "cat <<%s",
             "#%s", "text %s ", "%s%s", "%s.", "; %s", "echo } )", "a=1", "f() {", "esac", "done", ";;", "#"]
 HD_EOL = ["text %s", "text\t%s", "finish it with %s", "}\t%s", "' %s"]
 HD_UNBAL = ["Don't do that", 'say "hi', "`", "$(", "${", "(", ")", "'", "\\", "it's $(", "\"'", "<<"]
@@ -330,20 +362,26 @@ def gen_heredoc(rng):
     return "%s %s%s%s\n%s%s%s" % (rng.choice(HD_CMDS), op, qw, rest, body, tab, word), keys
 
 
-def gen_value(rng):
+def gen_value(rng, uni=False):
     k = rng.random()
     if k < 0.08:
         return ""
     n = rng.choice([1, 1, 2, 3, 4, 6])
-    return "".join(rng.choice(VALUE_ATOMS) for _ in range(n))
+    return "".join(rng.choice(UNI_VALUE_ATOMS if (rng.random() < (0.5 if uni else 0.06)) else VALUE_ATOMS) for _ in range(n))
 
 
-def gen_body(rng, allow_finding):
+_UNI_BODY = sorted(k for k in BODY_ATOMS if k.startswith("unicode"))
+
+
+def gen_body(rng, allow_finding, uni=False):
     parts = []
     keys = []
     for _ in range(rng.choice([1, 1, 2, 2, 3, 4])):
         r = rng.random()
-        if allow_finding and r < 0.04:
+        if uni and r > 0.6:
+            k = rng.choice(_UNI_BODY)
+            atom, akeys = BODY_ATOMS[k], [k]
+        elif allow_finding and r < 0.04:
             k = rng.choice(sorted(FINDING_ATOMS))
             atom, akeys = FINDING_ATOMS[k], [k]
         elif r < 0.3:
@@ -367,19 +405,20 @@ def gen_case(rng, allow_finding=True):
         nv = 2
     vnames, vcands = gen_names(rng, nv, False)
     fnames, fcands = gen_names(rng, nf, True)
+    uni = rng.random() < 0.3      # a dump rich in multi-byte text (values and function bodies)
     vars_ = []
     for n in vnames:
         style = rng.choice(["A", "Q", "q", "p", "A", "Q", "arr"])
         if style == "arr":
-            val = [gen_value(rng) for _ in range(rng.randint(0, 3))]
+            val = [gen_value(rng, uni) for _ in range(rng.randint(0, 3))]
         else:
-            val = gen_value(rng)
+            val = gen_value(rng, uni)
         vars_.append({"name": n, "style": style, "value": val})
     funcs = []
-    atoms = []
+    atoms = ["uni_rich"] if uni else []
     for n in fnames:
-        body, keys = gen_body(rng, allow_finding)
-        funcs.append({"name": n, "body": body})
+        body, keys = gen_body(rng, allow_finding, uni)
+        funcs.append({"name": n, "body": body, "atoms": keys})
         atoms += keys
     return {"vars": vars_, "funcs": funcs, "vpat": gen_tokens(rng, vcands), "fpat": gen_tokens(rng, fcands),
             "vwl": rng.random() < 0.3, "fwl": rng.random() < 0.3, "interleave": rng.random() < 0.2, "atoms": atoms}
@@ -494,7 +533,45 @@ def real_filter(text, vpat, fpat, vwl, fwl):
     finally:
         signal.alarm(0)
         signal.signal(signal.SIGALRM, old)
-    return status, out.getvalue().decode("utf-8", "surrogatepass"), vseen, fseen
+    return status, out.getvalue(), vseen, fseen
+
+
+def as_text(out_b):
+    """the written bytes as text for the text-level comparisons (a torn sequence shows as U+FFFD; reported separately by check_bytes)"""
+    return out_b.decode("utf-8", "replace")
+
+
+def is_subsequence(small, big):
+    it = iter(big)
+    return all(c in it for c in small)
+
+
+def check_bytes(ctx, case, text, out_b, m, finding=None):
+    """'the output contains no stray bytes', at the byte level: what was written must be valid UTF-8 (the dump is), contain no NUL, be made
+    of bytes of the encoded dump in order, and equal the model's bytes (one encoded window after the other).  True when a violation was reported."""
+    bad = False
+    raw = text.encode("utf-8")
+    try:
+        out_b.decode("utf-8")
+    except UnicodeDecodeError as e:
+        lo = max(0, e.start - 12)
+        ctx.violation(case, f"the filtered output is not valid UTF-8 although the dump is (a multi-byte character was cut in two): byte offset {e.start}, "
+                            f"…{out_b[lo:e.start + 8]!r}; output {len(out_b)} bytes for a dump of {len(raw)} bytes / {len(text)} characters", finding=finding)
+        bad = True
+    if b"\0" in out_b:
+        ctx.violation(case, "the filtered output contains a NUL byte (the sentinel)", finding=finding)
+        bad = True
+    if not is_subsequence(out_b, raw):
+        ctx.violation(case, "the filtered output is not made of pieces of the (encoded) input in order", finding=finding)
+        bad = True
+    if isinstance(m, dict) and m.get("bytes") != out_b.hex():
+        mb = bytes.fromhex(m.get("bytes") or "")
+        i = 0
+        while i < min(len(mb), len(out_b)) and mb[i] == out_b[i]:
+            i += 1
+        ctx.mismatch(case, f"bytes written differ from the Lean model's at byte {i}: real …{out_b[max(0, i - 12):i + 16]!r} model …{mb[max(0, i - 12):i + 16]!r} "
+                           f"(lengths {len(out_b)}/{len(mb)})")
+    return bad
 
 
 _PLAIN = _re.compile(r"^[A-Za-z0-9_:-]+$")
@@ -549,11 +626,6 @@ def check_selection(ctx, case, kind, names, toks, wl, rep):
     return {n for n, sel in zip(names, spec) if sel}
 
 
-def is_subsequence(small, big):
-    it = iter(big)
-    return all(c in it for c in small)
-
-
 # ---------------------------------------------------------------- corpus
 
 def _c(vars_=(), funcs=(), vpat=(), fpat=(), vwl=False, fwl=False, atoms=("corpus",)):
@@ -596,6 +668,23 @@ CORPUS = [
     _c(funcs=[("a1", "cat <<-EOF\n EOF\n\tsay \"hi\n\t\tEOF"), ("b1", "x=$(cat <<EOF\nEOF} it's\n\tEOF\nEOF\n)"), ("c1", "echo c")], fpat=["c1", "a1"],
        atoms=("corpus", "hd_lookalike")),
 ]
+CORPUS += [
+    # multi-byte text before the definitions that are removed / before the end of the dump (values in every quoting style, function bodies)
+    _c(vars_=[("ARCH", "A", "amd64"), ("DESCRIPTION", "Q", "Schöne Grüße — naïve café tools"), ("EBUILD_PHASE", "A", "install"),
+              ("MAINTAINER", "p", "José Ñandú <jose@example.org>"), ("SLOT", "q", "0"), ("T", "A", "/var/tmp/t"), ("ZZ_LAST", "Q", "end 😀")],
+       funcs=[("pkg_nofetch", 'einfo "Bitte laden Sie die Datei „${A}“ händisch herunter";\neinfo "und legen Sie sie in ${DISTDIR} ab — danke"'),
+              ("pkg_setup", "local msg='größer';\necho \"${msg} }\" > /dev/null"), ("src_install", 'dodoc README;\neinfo "fertig ✓"')],
+       vpat=["EBUILD_PHASE", "SLOT", "ZZ_LAST"], fpat=["pkg_setup"], atoms=("corpus", "uni_rich")),
+    _c(vars_=[("ARCH", "A", "amd64"), ("DESCRIPTION", "Q", "Schöne Grüße — naïve café tools"), ("MAINTAINER", "p", "José Ñandú"), ("USE", "A", "nls unicode")],
+       funcs=[("pkg_nofetch", 'einfo "„${A}“ — danke"'), ("src_install", 'einfo "fertig ✓"')],
+       vpat=["ARCH", "MAINTAINER"], fpat=["src_install"], vwl=True, fwl=True, atoms=("corpus", "uni_rich")),
+    _c(vars_=[("A", "arr", ["é", "日本語 }", "😀"]), ("B", "q", "→"), ("C", "A", "x")], funcs=[("größe", "echo 'ü }'"), ("g", "echo g")], vpat=["B"], fpat=["größe"],
+       atoms=("corpus", "uni_rich")),
+    # printable non-ASCII spaces: bash writes them raw and unquoted (printf %q) and does not split words there (fixed ce09e26: the scanner did)
+    _c(vars_=[("A", "q", "x\u00a0y"), ("B", "q", "x\u3000y;z"), ("C", "A", "1"), ("D", "q", "\u2003")], vpat=["A", "B", "D"], atoms=("corpus", "uni_rich")),
+    _c(vars_=[("A", "q", "x\u00a0y"), ("C", "A", "1")], funcs=[("f", "echo a\u00a0#b \"}\"\nx=ä\u3000ö"), ("g", "echo g")], vpat=["C"], fpat=["g"], vwl=True,
+       atoms=("corpus", "uni_rich")),
+]
 # raw texts (not produced by bash): boundary cases of the scanner itself
 RAW = [
     ("f() { ", [], ["f"]), ("x='", ["x"], []), ("x=\"$", [], []), ("a <<", [], []), ("X=1 #", ["X"], []), ("X=\\", ["X"], []),
@@ -621,15 +710,19 @@ def run(ctx):
             cases.append(gen_case(rng))
         _run_dumps(ctx, rng, cases, scratch)
         _run_select(ctx, rng)
-        _run_raw(ctx, rng)
+        _run_raw(ctx, rng, scratch)
     finally:
         shutil.rmtree(scratch, ignore_errors=True)
 
 
+def case_atoms(c):
+    return list(c.get("atoms", ()))
+
+
 def case_finding(c):
     """the open finding whose input class the case is in (None: the property must hold exactly)"""
-    atoms = c["atoms"]
-    if any(k in FINDING_ATOMS for k in atoms) or any("${y/'}'" in f["body"] for f in c["funcs"]):
+    atoms = case_atoms(c)
+    if any(k in FINDING_ATOMS for k in atoms) or any("${y/'}'" in (f.get("body") or "") for f in c["funcs"]):
         return FINDING
     if any(k in ("wrap_group", "wrap_subshell") for k in atoms):
         return FINDING_GROUP
@@ -638,69 +731,174 @@ def case_finding(c):
     return None
 
 
-def _run_dumps(ctx, rng, cases, scratch):
-    # ---- step 1: let bash write the dumps (batched)
-    B = 40
+def public_case(c):
+    case = {k: c[k] for k in ("vars", "funcs", "vpat", "fpat", "vwl", "fwl", "interleave") if k in c}
+    for k in ("dump_text", "derived_from"):
+        if k in c:
+            case[k] = c[k]
+    return case
+
+
+_DIRNO = [0]
+B = 40
+
+
+def _new_dir(c, scratch):
+    _DIRNO[0] += 1
+    d = os.path.join(scratch, "c%d" % _DIRNO[0])
+    os.makedirs(d)
+    c["dir"] = d
+    return d
+
+
+def _bash_dump(cases, scratch):
+    """let bash write the dumps (batched): c['text'] (None + c['skip'] when bash produced nothing usable)"""
     for start in range(0, len(cases), B):
-        batch = cases[start:start + B]
         script = []
-        for i, c in enumerate(batch):
-            d = os.path.join(scratch, "c%d" % (start + i))
-            c["dir"] = d
-            os.makedirs(d)
+        for c in cases[start:start + B]:
+            d = _new_dir(c, scratch)
             with open(os.path.join(d, "setup.sh"), "w") as f:
-                f.write(setup_script(c))
+                f.write(c["raw_source"] if "raw_source" in c else setup_script(c))
             with open(os.path.join(d, "dump.sh"), "w") as f:
-                f.write(dump_script(c))
-            script.append("( source %s/setup.sh; __c34tmp=%s/declare.tmp; source %s/dump.sh ) > %s/dump.txt 2> %s/dump.err" % (d, d, d, d, d))
-        run_bash("\n".join(script))
-    # ---- step 2: the real filter and the model
-    reqs = []
+                f.write(REDUMP if "raw_source" in c else dump_script(c))
+            if "raw_source" in c:
+                # a text that bash did not write: it may run commands when sourced; no stdin, own time limit, names reported by bash itself
+                script.append("( __c34names=%s/names.txt; __c34base=$(compgen -v); source %s/setup.sh </dev/null >/dev/null 2>&1; source %s/dump.sh ) "
+                              "> %s/dump.txt 2> %s/dump.err" % (d, d, d, d, d))
+            else:
+                script.append("( source %s/setup.sh; __c34tmp=%s/declare.tmp; source %s/dump.sh ) > %s/dump.txt 2> %s/dump.err" % (d, d, d, d, d))
+        try:
+            run_bash("\n".join(script), timeout=60 if any("raw_source" in c for c in cases[start:start + B]) else 300)
+        except subprocess.TimeoutExpired:
+            pass
     for c in cases:
         d = c["dir"]
         try:
             text = open(os.path.join(d, "dump.txt"), encoding="utf-8").read()
         except (OSError, UnicodeDecodeError):
             text = None
+        if "raw_source" in c and text:
+            try:
+                names = open(os.path.join(d, "names.txt"), encoding="utf-8").read().split("\n")
+            except (OSError, UnicodeDecodeError):
+                names = []
+            c["vars"] = [{"name": n[2:], "style": "redump", "value": None} for n in names
+                         if n.startswith("V ") and n[2:] not in RESERVED and not n[2:].startswith(("BASH", "COMP_", "__c34"))]
+            c["funcs"] = [{"name": n[2:], "body": None} for n in names if n.startswith("F ")]
         c["text"] = text
         if not text or "\0" in text:
-            c["skip"] = "bash produced no usable dump: " + open(os.path.join(d, "dump.err"), errors="replace").read()[:120]
-            continue
-        status, out, vseen, fseen = real_filter(text, c["vpat"], c["fpat"], c["vwl"], c["fwl"])
-        c["status"], c["out"], c["vseen"], c["fseen"] = status, out, vseen, fseen
-        with open(os.path.join(d, "filtered.txt"), "w", encoding="utf-8", errors="surrogatepass") as f:
-            f.write(out.replace("\0", ""))
+            try:
+                err = open(os.path.join(d, "dump.err"), errors="replace").read()[:120]
+            except OSError:
+                err = ""
+            c["skip"] = "bash produced no usable dump: " + err
+
+
+# what bash defines after sourcing a text it did not write: every function and every new variable, dumped the way bash writes them
+REDUMP = r"""
+for __n in $(compgen -v); do
+    case " ${__c34base//$'\n'/ } __c34base __c34names __n BASH_ARGC BASH_ARGV BASH_LINENO BASH_SOURCE FUNCNAME PIPESTATUS _ " in *" $__n "*) continue;; esac
+    case $(declare -p "$__n" 2>/dev/null) in "declare -- "*) ;; *) continue;; esac
+    printf 'V %s\n' "$__n" >> "$__c34names"
+    printf '%s\n' "${!__n@A}"
+done
+for __n in $(compgen -A function); do
+    printf 'F %s\n' "$__n" >> "$__c34names"
+    declare -f "$__n"
+done
+"""
+
+
+def _filter_and_oracle(ctx, cases):
+    """real filter + model + bash as oracle (batched) for cases that have a dump text: fills status/out_b/model/selection/orig/got"""
+    reqs = []
+    for c in cases:
+        d = c["dir"]
+        status, out_b, vseen, fseen = real_filter(c["text"], c["vpat"], c["fpat"], c["vwl"], c["fwl"])
+        c["status"], c["out_b"], c["out"], c["vseen"], c["fseen"] = status, out_b, as_text(out_b), vseen, fseen
+        with open(os.path.join(d, "dump.txt"), "w", encoding="utf-8") as f:
+            f.write(c["text"])
+        with open(os.path.join(d, "filtered.txt"), "wb") as f:      # the bytes as written (bash cannot read a NUL)
+            f.write(out_b.replace(b"\0", b""))
         with open(os.path.join(d, "probe.sh"), "w") as f:
             f.write(probe_script(c))
-        reqs.append(run_req(text, c["vpat"], c["fpat"], c["vwl"], c["fwl"]))
+        reqs.append(run_req(c["text"], c["vpat"], c["fpat"], c["vwl"], c["fwl"]))
         reqs.append(select_req(c["vpat"], c["vwl"], [v["name"] for v in c["vars"]]))
         reqs.append(select_req(c["fpat"], c["fwl"], [f["name"] for f in c["funcs"]]))
-    live = [c for c in cases if "skip" not in c]
     reps = ctx.model(reqs)
-    for i, c in enumerate(live):
+    for i, c in enumerate(cases):
         c["model"], c["vselrep"], c["fselrep"] = reps[3 * i], reps[3 * i + 1], reps[3 * i + 2]
-    # ---- step 3: bash as oracle (batched): source unfiltered / filtered text in a clean shell and report the definitions
-    for start in range(0, len(live), B):
+    for start in range(0, len(cases), B):
         script = []
-        for c in live[start:start + B]:
+        for c in cases[start:start + B]:
             d = c["dir"]
-            script.append("( source %s/dump.txt >/dev/null 2>&1; source %s/probe.sh ) > %s/orig.txt 2>/dev/null" % (d, d, d))
+            script.append("( source %s/dump.txt >/dev/null 2>%s/orig.err; source %s/probe.sh ) > %s/orig.txt 2>/dev/null" % (d, d, d, d))
             script.append("( source %s/filtered.txt >/dev/null 2>%s/src.err; source %s/probe.sh ) > %s/got.txt 2>/dev/null" % (d, d, d, d))
         run_bash("\n".join(script))
-    # ---- step 4: verdicts
     for c in cases:
-        case = {k: c[k] for k in ("vars", "funcs", "vpat", "fpat", "vwl", "fwl", "interleave")}
-        if "skip" in c:
-            ctx.count("skipped_no_dump")
-            ctx.note(c["skip"])
+        d = c["dir"]
+        c["orig"] = parse_probe(open(os.path.join(d, "orig.txt"), errors="replace").read())
+        c["got"] = parse_probe(open(os.path.join(d, "got.txt"), errors="replace").read())
+        for k, fn in (("orig_err", "orig.err"), ("src_err", "src.err")):
+            try:
+                c[k] = open(os.path.join(d, fn), errors="replace").read().replace(d + "/", "").strip()
+            except OSError:
+                c[k] = ""
+
+
+def property_problems(c, vsel, fsel):
+    """the property's own statement with bash as oracle: after sourcing the filtered text every selected definition is gone and every other
+    one is what sourcing the dump itself defines"""
+    orig, got = c["orig"], c["got"]
+    problems = []
+    # no stray bytes: what is left must be definitions only — bash reads the dump without a word, so it must read the filtered text without one
+    if c.get("src_err") and not c.get("orig_err"):
+        problems.append("bash complains when sourcing the filtered text although it reads the dump silently (stray text left behind): "
+                        + c["src_err"].split("\n")[0][:160])
+    for v in c["vars"]:
+        key = "V " + v["name"]
+        want = "@@UNSET@@" if v["name"] in vsel else orig.get(key)
+        if orig.get(key) in (None, "@@UNSET@@"):
+            continue   # bash itself could not re-read its own dump of this value
+        if got.get(key) != want:
+            problems.append(f"variable {v['name']}: expected {'removed' if want == '@@UNSET@@' else want!r}, after sourcing the filtered text "
+                            f"{got.get(key)!r} (tokens {c['vpat']!r} whitelist={c['vwl']})")
+    for f in c["funcs"]:
+        key = "F " + f["name"]
+        want = "@@UNSET@@" if f["name"] in fsel else orig.get(key)
+        if orig.get(key) in (None, "@@UNSET@@"):
             continue
-        text, out, status = c["text"], c["out"], c["status"]
-        finding = case_finding(c)
-        # which names must go: the specification's whole-name selection on the token lists (not the code's own pattern)
-        vsel = check_selection(ctx, case, "variable", [v["name"] for v in c["vars"]], c["vpat"], c["vwl"], c["vselrep"])
-        fsel = check_selection(ctx, case, "function", [f["name"] for f in c["funcs"]], c["fpat"], c["fwl"], c["fselrep"])
-        if vsel is None or fsel is None:
-            continue
+        if got.get(key) != want:
+            problems.append(f"function {f['name']}: expected {'removed' if want == '@@UNSET@@' else 'unchanged'}, "
+                            f"got {(got.get(key) or '')[:80]!r} (tokens {c['fpat']!r} whitelist={c['fwl']})")
+    return problems
+
+
+def _verdict(ctx, c, register):
+    """edges A and C for one evaluated dump case.  Returns (violated, mismatched, in_finding_class)."""
+    case = public_case(c)
+    state = {"v": False, "m": False}
+
+    def violation(detail, finding=None):
+        state["v"] = True
+        ctx.violation(case, detail, finding=finding)
+
+    def mismatch(detail):
+        state["m"] = True
+        ctx.mismatch(case, detail)
+
+    text, out, out_b, status = c["text"], c["out"], c["out_b"], c["status"]
+    finding = case_finding(c)
+    nm = len(ctx.mismatches)
+    # which names must go: the specification's whole-name selection on the token lists (not the code's own pattern)
+    vsel = check_selection(ctx, case, "variable", [v["name"] for v in c["vars"]], c["vpat"], c["vwl"], c["vselrep"])
+    fsel = check_selection(ctx, case, "function", [f["name"] for f in c["funcs"]], c["fpat"], c["fwl"], c["fselrep"])
+    if len(ctx.mismatches) != nm:
+        state["m"] = True
+    c["vsel"], c["fsel"] = vsel, fsel
+    if vsel is None or fsel is None:
+        return False, True, finding
+    if register:
         ndefs = len(c["vars"]) + len(c["funcs"])
         nsel = len(vsel) + len(fsel)
         ctx.case(case, ndefs >= 2 and 0 < nsel < ndefs, key=text + json.dumps([c["vpat"], c["fpat"], c["vwl"], c["fwl"]]))
@@ -709,60 +907,192 @@ def _run_dumps(ctx, rng, cases, scratch):
         ctx.count("dump_len_%s" % ("<200" if len(text) < 200 else "<1000" if len(text) < 1000 else ">=1000"))
         for v in c["vars"]:
             ctx.count("style_" + v["style"])
-        for k in c["atoms"]:
+        for k in case_atoms(c):
             ctx.count("atom_" + k)
-        if "hd_eolword" in c["atoms"] and "hd_unbalanced" in c["atoms"]:
+        if "hd_eolword" in case_atoms(c) and "hd_unbalanced" in case_atoms(c):
             ctx.count("heredoc_text_with_delimiter_word_and_unbalanced_quote")
         if c["vwl"] or c["fwl"]:
             ctx.count("whitelist_mode")
-        # the real code must terminate normally
-        if status != "ok":
-            ctx.violation(case, f"filter_env.main_run did not finish normally on a dump written by bash: {status}")
-            continue
-        # no stray bytes
-        if "\0" in out:
-            ctx.violation(case, "the filtered text contains the NUL sentinel")
-        if not is_subsequence(out, text):
-            ctx.violation(case, "the filtered text is not made of pieces of the input in order")
-        # edge A: model
-        m = c["model"]
-        if isinstance(m, str):
-            ctx.mismatch(case, f"Lean model answered {m}, real code finished normally")
-        else:
-            if m["out"] != out:
-                ctx.mismatch(case, "filtered text differs from the Lean model's: " + first_diff(out, m["out"]))
-            if m["out"] != m["spec"]:
-                ctx.mismatch(case, "Lean model output is not 'input minus the filtered statements': " + first_diff(m["out"], m["spec"]))
-            if m["out"] != m["specsel_out"]:
-                ctx.mismatch(case, "Lean model filters other statements than the specification selects: " + first_diff(m["out"], m["specsel_out"]))
-            mv = [s[3] for s in m["stmts"] if not s[0]]
-            mf = [s[3] for s in m["stmts"] if s[0]]
-            if mv != c["vseen"] or mf != [n for lvl, n in c["fseen"] if lvl == 0]:
-                ctx.mismatch(case, f"statements recognised differ: real vars {c['vseen']} funcs {c['fseen']}; model vars {mv} funcs {mf}")
-        # edge C: bash as oracle
-        d = c["dir"]
-        orig = parse_probe(open(os.path.join(d, "orig.txt"), errors="replace").read())
-        got = parse_probe(open(os.path.join(d, "got.txt"), errors="replace").read())
-        problems = []
-        for v in c["vars"]:
-            key = "V " + v["name"]
-            want = "@@UNSET@@" if v["name"] in vsel else orig.get(key)
-            if orig.get(key) in (None, "@@UNSET@@"):
-                continue   # bash itself could not re-read its own dump of this value
-            if got.get(key) != want:
-                problems.append(f"variable {v['name']}: expected {'removed' if want == '@@UNSET@@' else want!r}, after sourcing the filtered text "
-                                f"{got.get(key)!r} (tokens {c['vpat']!r} whitelist={c['vwl']})")
-        for f in c["funcs"]:
-            key = "F " + f["name"]
-            want = "@@UNSET@@" if f["name"] in fsel else orig.get(key)
-            if orig.get(key) in (None, "@@UNSET@@"):
+        if not text.isascii():
+            ctx.count("dump_with_multibyte_text")
+            # multi-byte text in front of a definition that is removed: every cut behind it has a byte offset != its character offset
+            m = c["model"]
+            if isinstance(m, dict) and any(s[4] and not text[:s[1]].isascii() for s in m["stmts"]):
+                ctx.count("multibyte_text_before_a_removed_definition")
+    # the real code must terminate normally
+    if status != "ok":
+        violation(f"filter_env.main_run did not finish normally on a dump written by bash: {status}")
+        return True, state["m"], finding
+    # no stray bytes
+    nv = len(ctx.violations) + len(ctx.known_hits)
+    if check_bytes(ctx, case, text, out_b, c["model"], finding=finding):
+        state["v"] = True
+    # edge A: model
+    m = c["model"]
+    if isinstance(m, str):
+        mismatch(f"Lean model answered {m}, real code finished normally")
+    else:
+        if m.get("bytes") != out_b.hex():
+            state["m"] = True
+        if m["out"] != out:
+            mismatch("filtered text differs from the Lean model's: " + first_diff(out, m["out"]))
+        if m["out"] != m["spec"]:
+            mismatch("Lean model output is not 'input minus the filtered statements': " + first_diff(m["out"], m["spec"]))
+        if m["out"] != m["specsel_out"]:
+            mismatch("Lean model filters other statements than the specification selects: " + first_diff(m["out"], m["specsel_out"]))
+        mv = [s[3] for s in m["stmts"] if not s[0]]
+        mf = [s[3] for s in m["stmts"] if s[0]]
+        if mv != c["vseen"] or mf != [n for lvl, n in c["fseen"] if lvl == 0]:
+            mismatch(f"statements recognised differ: real vars {c['vseen']} funcs {c['fseen']}; model vars {mv} funcs {mf}")
+    # edge C: bash as oracle
+    problems = property_problems(c, vsel, fsel)
+    if problems:
+        violation("; ".join(problems[:3]), finding=finding)
+    return state["v"], state["m"], finding
+
+
+def neighbours(c):
+    """the same dump under other token lists: nothing selected, every definition alone (removed alone / kept alone) — a statement whose
+    boundaries are wrong shows when it, or its neighbour, is the one that is cut out"""
+    out = []
+    base = {k: c[k] for k in ("vars", "funcs", "interleave", "text", "atoms") if k in c}
+
+    def mk(vpat, fpat, vwl, fwl):
+        n = dict(base)
+        n.update(vpat=vpat, fpat=fpat, vwl=vwl, fwl=fwl, dump_text=c["text"], derived_from="same dump, other token lists")
+        out.append(n)
+    mk([], [], False, False)
+    mk(list(reversed(c["vpat"])), list(reversed(c["fpat"])), c["vwl"], c["fwl"])
+    mk(c["vpat"], c["fpat"], not c["vwl"], not c["fwl"])
+    for v in c["vars"][:6]:
+        mk([esc_token(v["name"])], [], False, False)
+        mk([esc_token(v["name"])], [], True, False)
+    for f in c["funcs"][:6]:
+        mk([], [esc_token(f["name"])], False, False)
+        mk([], [esc_token(f["name"])], False, True)
+    return out
+
+
+def shrunk(c):
+    """the case with one definition less (bash dumps it again)"""
+    out = []
+    for kind in ("vars", "funcs"):
+        for i in range(len(c[kind])):
+            n = {k: c[k] for k in ("vars", "funcs", "vpat", "fpat", "vwl", "fwl", "interleave")}
+            n[kind] = c[kind][:i] + c[kind][i + 1:]
+            if not n["vars"] and not n["funcs"]:
                 continue
-            if got.get(key) != want:
-                problems.append(f"function {f['name']}: expected {'removed' if want == '@@UNSET@@' else 'unchanged'}, "
-                                f"got {(got.get(key) or '')[:80]!r} (tokens {c['fpat']!r} whitelist={c['fwl']})")
-        if problems:
-            ctx.violation(case, "; ".join(problems[:3]), finding=finding)
+            n["atoms"] = [a for a in case_atoms(c) if a in ("corpus", "uni_rich")] + [a for f in n["funcs"] for a in f.get("atoms", ())]
+            if any("atoms" not in f for f in n["funcs"]):
+                n["atoms"] = case_atoms(c)      # hand-written case: keep its classification
+            out.append(n)
+    return out
+
+
+class _Quiet:
+    """a ctx stand-in that records verdicts of explored inputs without reporting them"""
+
+    def __init__(self, ctx):
+        self._ctx = ctx
+        self.violations, self.mismatches, self.known_hits = [], [], {}
+        self.findings = ctx.findings
+        self.pid = ctx.pid
+
+    def violation(self, case, detail, finding=None):
+        if finding is not None:
+            f = self.findings.get(finding)
+            if f and f.get("property") == self.pid and f.get("status") == "open":
+                self.known_hits.setdefault(finding, {"case": case, "detail": detail})
+                return
+        self.violations.append({"case": case, "detail": detail})
+
+    def mismatch(self, case, detail):
+        self.mismatches.append({"case": case, "detail": detail})
+
+    def count(self, *a, **k):
+        pass
+
+    def case(self, *a, **k):
+        pass
+
+    def model(self, reqs):
+        return self._ctx.model(reqs)
+
+
+def explore(ctx, c, scratch):
+    """a model/implementation disagreement on a dump without a property failure there: evaluate the property itself (bash as oracle) on
+    nearby inputs.  Returns the number of failing inputs reported."""
+    ns = neighbours(c)
+    for n in ns:
+        _new_dir(n, scratch)
+    _filter_and_oracle(ctx, ns)
+    found = 0
+    for n in ns:
+        q = _Quiet(ctx)
+        v, m, finding = _verdict(q, n, False)
+        ctx.count("explored_neighbour_inputs")
+        if q.violations and found < 3:
+            found += 1
+            ctx.violation(public_case(n), "found from a model/implementation disagreement by trying other token lists on the same dump: "
+                          + q.violations[0]["detail"])
+    return found
+
+
+def shrink(ctx, c, scratch):
+    """greedy: drop one definition at a time while the property still fails (bash dumps every candidate again)"""
+    cur = c
+    for _ in range(8):
+        cands = shrunk(cur)
+        if not cands:
+            break
+        _bash_dump(cands, scratch)
+        cands = [n for n in cands if "skip" not in n]
+        if not cands:
+            break
+        _filter_and_oracle(ctx, cands)
+        nxt = None
+        for n in cands:
+            q = _Quiet(ctx)
+            _verdict(q, n, False)
+            ctx.count("shrink_candidates")
+            if q.violations:
+                nxt, detail = n, q.violations[0]["detail"]
+                break
+        if nxt is None:
+            break
+        cur, cur_detail = nxt, detail
+    if cur is not c:
+        cur["dump_text"] = cur["text"]
+        cur["derived_from"] = "shrunk from a failing dump of %d definitions" % (len(c["vars"]) + len(c["funcs"]))
+        # first in the list (the list is capped): the smallest failing input is the one to look at
+        ctx.violations.insert(0, {"case": public_case(cur), "detail": "(shrunk) " + cur_detail, "finding_class": None})
+        del ctx.violations[50:]
+
+
+def _run_dumps(ctx, rng, cases, scratch, register=True):
+    _bash_dump(cases, scratch)
+    live = [c for c in cases if "skip" not in c]
+    _filter_and_oracle(ctx, live)
+    to_explore, to_shrink = [], []
+    for c in cases:
+        if "skip" in c:
+            ctx.count("skipped_no_dump")
+            ctx.note(c["skip"])
+            continue
+        nv = len(ctx.violations)
+        violated, mismatched, finding = _verdict(ctx, c, register)
         ctx.traces += 1
+        if violated and finding is None and len(ctx.violations) > nv:
+            to_shrink.append(c)
+        elif mismatched and not violated:
+            to_explore.append(c)
+    # a disagreement with the model that did not show as a property failure on its own input: look around it
+    for c in to_explore[:6]:
+        explore(ctx, c, scratch)
+    for c in to_shrink[:2]:
+        if len(c["vars"]) + len(c["funcs"]) > 2:
+            shrink(ctx, c, scratch)
+    return len(to_shrink), len(to_explore)
 
 
 def first_diff(a, b):
@@ -774,12 +1104,33 @@ def first_diff(a, b):
 
 # ---- the name selection on its own: one-line definitions (their boundaries are not in question), many names x token lists
 
-def _sel_text(vnames, fnames):
-    return "".join("%s=1\n" % n for n in vnames) + "".join("%s () \n{ \n    :\n}\n" % n for n in fnames)
+SEL_VALUES = ["1", "1", "1", "é", "'ü →'", "😀", "x\u00a0y"]
+
+
+def _sel_text(vnames, fnames, vals=None):
+    vals = vals or ["1"] * len(vnames)
+    return "".join("%s=%s\n" % (n, v) for n, v in zip(vnames, vals)) + "".join("%s () \n{ \n    :\n}\n" % n for n in fnames)
 
 
 SMALL_NAMES = ["A", "B", "AA", "AB", "BA", "BB", "AAB", "ABA", "ABB", "BAB", "A_B", "AB_"]
 SMALL_TOKENS = ["A", "B", "AB", "BA", "A.*", ".*B", "A.", "AB?", "A_B", "A|BA"]
+
+
+def select_problem(item, out_b, vsel, fsel):
+    """the property on a text of one-line definitions: exactly the selected definitions are gone, the others are there byte for byte"""
+    vnames, fnames, vpat, fpat, vwl, fwl, vals = item
+    want = ["%s=%s" % (n, v) for n, v in zip(vnames, vals) if n not in vsel]
+    for n in fnames:
+        if n not in fsel:
+            want += ["%s () " % n, "{ ", "    :", "}"]
+    got = [ln for ln in out_b.split(b"\n") if ln != b""]
+    if got == [w.encode("utf-8") for w in want]:
+        return None
+    gotn = {ln.split(b"=")[0].split(b" ")[0] for ln in got}
+    gone = [n for n in vnames + fnames if n not in vsel | fsel and n.encode() not in gotn]
+    kept = [n for n in vnames + fnames if n in vsel | fsel and n.encode() in gotn]
+    return (f"variable tokens {vpat!r} (whitelist={vwl}), function tokens {fpat!r} (whitelist={fwl}): wrongly removed {gone}, wrongly kept {kept}; "
+            f"output {as_text(out_b)[:120]!r}")
 
 
 def _run_select(ctx, rng):
@@ -790,9 +1141,9 @@ def _run_select(ctx, rng):
         for toks in itertools.product(SMALL_TOKENS, repeat=k):
             for wl in (False, True):
                 if (len(items) + k) % 2:
-                    items.append((SMALL_NAMES, [], list(toks), [], wl, False))
+                    items.append((SMALL_NAMES, [], list(toks), [], wl, False, ["1"] * len(SMALL_NAMES)))
                 else:
-                    items.append(([], SMALL_NAMES, [], list(toks), False, wl))
+                    items.append(([], SMALL_NAMES, [], list(toks), False, wl, []))
     for _ in range(ctx.n(250, 8000)):
         vnames, vc = gen_names(rng, rng.choice([0, 2, 3, 5, 8]), False)
         fnames, fc = gen_names(rng, rng.choice([0, 2, 3, 5]), True)
@@ -801,49 +1152,85 @@ def _run_select(ctx, rng):
         # put related names in the text as well: they are the ones a sloppy pattern catches
         vnames = list(dict.fromkeys(vnames + [n for n in vc if rng.random() < 0.5]))
         fnames = list(dict.fromkeys(fnames + [n for n in fc if rng.random() < 0.5]))
-        items.append((vnames, fnames, gen_tokens(rng, vc), gen_tokens(rng, fc), rng.random() < 0.35, rng.random() < 0.35))
+        items.append((vnames, fnames, gen_tokens(rng, vc), gen_tokens(rng, fc), rng.random() < 0.35, rng.random() < 0.35,
+                      [rng.choice(SEL_VALUES) for _ in vnames]))
+    explored = _select_batch(ctx, items, True)
+    # disagreements with the model that were not property failures on their own input: the same names under nearby token lists
+    more = []
+    for it in explored[:8]:
+        vnames, fnames, vpat, fpat, vwl, fwl, vals = it
+        more.append((vnames, fnames, list(reversed(vpat)), list(reversed(fpat)), vwl, fwl, vals))
+        more.append((vnames, fnames, vpat, fpat, not vwl, not fwl, vals))
+        for t in vpat[:3]:
+            more.append((vnames, fnames, [t], [], vwl, False, vals))
+        for t in fpat[:3]:
+            more.append((vnames, fnames, [], [t], False, fwl, vals))
+        more.append((vnames, fnames, vpat, fpat, vwl, fwl, vals))      # and once more: the answer may not depend on the calls in between
+    if more:
+        _select_batch(ctx, more, False)
+
+
+def _select_batch(ctx, items, register):
+    """returns the items on which model and implementation disagreed without a property failure"""
     reqs = []
     reals = []
-    for vnames, fnames, vpat, fpat, vwl, fwl in items:
-        text = _sel_text(vnames, fnames)
-        status, out, vseen, fseen = real_filter(text, vpat, fpat, vwl, fwl)
-        reals.append((text, status, out))
+    for vnames, fnames, vpat, fpat, vwl, fwl, vals in items:
+        text = _sel_text(vnames, fnames, vals)
+        status, out_b, vseen, fseen = real_filter(text, vpat, fpat, vwl, fwl)
+        reals.append((text, status, out_b))
         reqs += [run_req(text, vpat, fpat, vwl, fwl), select_req(vpat, vwl, vnames), select_req(fpat, fwl, fnames)]
     reps = ctx.model(reqs)
-    for i, ((vnames, fnames, vpat, fpat, vwl, fwl), (text, status, out)) in enumerate(zip(items, reals)):
+    explore_these = []
+    for i, (item, (text, status, out_b)) in enumerate(zip(items, reals)):
+        vnames, fnames, vpat, fpat, vwl, fwl, vals = item
         m, vrep, frep = reps[3 * i], reps[3 * i + 1], reps[3 * i + 2]
-        case = {"select": True, "vnames": vnames, "fnames": fnames, "vpat": vpat, "fpat": fpat, "vwl": vwl, "fwl": fwl}
+        case = {"select": True, "vnames": vnames, "fnames": fnames, "vpat": vpat, "fpat": fpat, "vwl": vwl, "fwl": fwl, "values": vals}
+        if not register:
+            case["derived_from"] = "nearby token lists of an input on which model and implementation disagreed"
+        nm, nv = len(ctx.mismatches), len(ctx.violations)
+        mism = [False]
+
+        def mismatch(detail):
+            mism[0] = True
+            ctx.mismatch(case, detail)
         vsel = check_selection(ctx, case, "variable", vnames, vpat, vwl, vrep)
         fsel = check_selection(ctx, case, "function", fnames, fpat, fwl, frep)
+        if len(ctx.mismatches) != nm:
+            mism[0] = True
         if vsel is None or fsel is None:
             continue
         n = len(vnames) + len(fnames)
-        ctx.case(case, n >= 2 and 0 < len(vsel) + len(fsel) < n, key="sel|" + json.dumps(case, sort_keys=True))
-        ctx.count("select_stream")
+        if register:
+            ctx.case(case, n >= 2 and 0 < len(vsel) + len(fsel) < n, key="sel|" + json.dumps(case, sort_keys=True))
+            ctx.count("select_stream")
+        else:
+            ctx.count("explored_neighbour_inputs")
         if status != "ok":
             ctx.violation(case, f"filter_env.main_run did not finish normally: {status}")
             continue
+        bad = check_bytes(ctx, case, text, out_b, m)
+        out = as_text(out_b)
         if isinstance(m, str):
-            ctx.mismatch(case, f"Lean model answered {m}, real code finished normally")
+            mismatch(f"Lean model answered {m}, real code finished normally")
         elif m["out"] != out:
-            ctx.mismatch(case, "filtered text differs from the Lean model's: " + first_diff(out, m["out"]))
+            mismatch("filtered text differs from the Lean model's: " + first_diff(out, m["out"]))
         elif m["out"] != m["specsel_out"]:
-            ctx.mismatch(case, "Lean model filters other statements than the specification selects: " + first_diff(m["out"], m["specsel_out"]))
+            mismatch("Lean model filters other statements than the specification selects: " + first_diff(m["out"], m["specsel_out"]))
+        elif m.get("bytes") != out_b.hex():
+            mism[0] = True
         # the property: exactly the selected definitions are gone, the others are there byte for byte
-        want = ["%s=1" % n for n in vnames if n not in vsel]
-        for n in fnames:
-            if n not in fsel:
-                want += ["%s () " % n, "{ ", "    :", "}"]
-        got = [ln for ln in out.split("\n") if ln != ""]
-        if got != want:
-            gone = [n for n in vnames + fnames if n not in vsel | fsel and ("%s=1" % n not in got and "%s () " % n not in got)]
-            kept = [n for n in vnames + fnames if n in vsel | fsel and ("%s=1" % n in got or "%s () " % n in got)]
-            ctx.violation(case, f"variable tokens {vpat!r} (whitelist={vwl}), function tokens {fpat!r} (whitelist={fwl}): wrongly removed {gone}, "
-                                f"wrongly kept {kept}")
+        problem = select_problem(item, out_b, vsel, fsel)
+        if problem:
+            ctx.violation(case, problem)
+            bad = True
+        if mism[0] and not bad:
+            explore_these.append(item)
+    return explore_these
 
 
-def _run_raw(ctx, rng):
-    """texts not written by bash (hand-made and single-edit mutations of dumps): robustness + model agreement only"""
+def _run_raw(ctx, rng, scratch):
+    """texts not written by bash (hand-made and single-edit mutations of dumps): robustness + model agreement; where model and implementation
+    disagree the text is sourced by bash, bash dumps what it defines, and the property is evaluated on that dump"""
     items = [(t, v, f) for t, v, f in RAW]
     seeds = []
     for _ in range(ctx.n(100, 4000)):
@@ -856,7 +1243,7 @@ def _run_raw(ctx, rng):
             if edit < 0.4:
                 base = base[:i] + base[i + 1:]
             elif edit < 0.8:
-                base = base[:i] + rng.choice(["'", '"', "{", "}", "(", ")", "$", "`", "\\", "#", "<<", "\n", ";", "=", " "]) + base[i:]
+                base = base[:i] + rng.choice(["'", '"', "{", "}", "(", ")", "$", "`", "\\", "#", "<<", "\n", ";", "=", " ", "é", "\u00a0", "→"]) + base[i:]
             else:
                 base = base[:i]
         seeds.append((base, [v["name"] for v in c["vars"]][:2], [f["name"] for f in c["funcs"]][:1]))
@@ -865,13 +1252,17 @@ def _run_raw(ctx, rng):
     reals = []
     for text, vnames, fnames in items:
         text = text.replace("\0", "")
-        status, out, vseen, fseen = real_filter(text, vnames, fnames, False, False)
-        reals.append((text, vnames, fnames, status, out, vseen, fseen))
+        status, out_b, vseen, fseen = real_filter(text, vnames, fnames, False, False)
+        reals.append((text, vnames, fnames, status, out_b, vseen, fseen))
         reqs.append(run_req(text, vnames, fnames, False, False))
-    for (text, vnames, fnames, status, out, vseen, fseen), m in zip(reals, ctx.model(reqs)):
+    redump = []
+    for (text, vnames, fnames, status, out_b, vseen, fseen), m in zip(reals, ctx.model(reqs)):
         case = {"raw": text, "vars": vnames, "funcs": fnames}
+        out = as_text(out_b)
         ctx.case(case, len(vseen) + len(fseen) >= 1 and out != text, key="raw|" + text + json.dumps([vnames, fnames]))
         ctx.count("raw_" + status)
+        if not text.isascii():
+            ctx.count("raw_with_multibyte_text")
         if status == "hang":
             ctx.violation(case, "filter_env.main_run does not terminate")
             continue
@@ -882,10 +1273,8 @@ def _run_raw(ctx, rng):
             if m != "err:index":
                 ctx.mismatch(case, f"real code raised IndexError, Lean model answered {str(m)[:80]}")
             continue
-        if "\0" in out:
-            ctx.violation(case, "the filtered text contains the NUL sentinel")
-        if not is_subsequence(out, text):
-            ctx.violation(case, "the filtered text is not made of pieces of the input in order")
+        nm = len(ctx.mismatches)
+        bad = check_bytes(ctx, case, text, out_b, m)
         if isinstance(m, str):
             ctx.mismatch(case, f"Lean model answered {m}, real code finished normally")
             continue
@@ -897,3 +1286,22 @@ def _run_raw(ctx, rng):
         mf = [s[3] for s in m["stmts"] if s[0]]
         if mv != vseen or mf != [n for lvl, n in fseen if lvl == 0]:
             ctx.mismatch(case, f"statements recognised differ: real vars {vseen} funcs {fseen}; model vars {mv} funcs {mf}")
+        if (len(ctx.mismatches) != nm or m.get("bytes") != out_b.hex()) and not bad:
+            redump.append((text, vnames, fnames))
+    # disagreements on texts outside the quantifier: let bash source the text and dump what it defines — an input inside the quantifier
+    # next to it — and evaluate the property there (same token lists, then the neighbouring ones)
+    if redump:
+        cases = [{"raw_source": t, "vars": [], "funcs": [], "vpat": [esc_token(n) for n in v], "fpat": [esc_token(n) for n in f], "vwl": False, "fwl": False,
+                  "interleave": False, "atoms": ["redump"], "derived_from": "bash's own dump of a raw text on which model and implementation disagreed"}
+                 for t, v, f in redump[:4]]
+        _bash_dump(cases, scratch)
+        live = [c for c in cases if "skip" not in c]
+        for c in live:
+            c["dump_text"] = c["text"]
+            ctx.count("raw_disagreement_redumped_by_bash")
+        if live:
+            _filter_and_oracle(ctx, live)
+            for c in live:
+                violated, mismatched, finding = _verdict(ctx, c, False)
+                if not violated:
+                    explore(ctx, c, scratch)
